@@ -111,6 +111,38 @@ class Ctx:
         return helper_tuples
 
 
+def _cli_status_after_changes(run: Run) -> None:
+    """R10.11: the status the CLI prints is the status of the text it writes"""
+    from ..cfg import CFG
+
+    run.rule("R10.11", "`octave write` judges what it writes: in cli.main:write no call that changes the parsed document (WriteTool._apply_changes / _apply_mutations / repair on it, a store into it) is reachable AFTER the Validator pass whose verdict becomes validation_status - a status computed before the --changes delta is applied describes the file as it was, not the text written", 1)
+    m = run.project.mod("cli.main")
+    if not m.has_func("write"):
+        raise AnalysisError("cli.main: write command not found")
+    fi = m.func("write")
+    cfg = CFG(fi.node)
+    validates = []
+    mutates = []
+    for n in cfg.nodes:
+        if n.ast is None or n.kind not in ("stmt", "test"):
+            continue
+        for c in ast.walk(n.ast):
+            if isinstance(c, ast.Call) and isinstance(c.func, ast.Attribute) and c.func.attr == "validate" and c.args and isinstance(c.args[0], ast.Name):
+                validates.append((n.id, c.args[0].id, c))
+            if isinstance(c, ast.Call) and (ast.unparse(c.func).split(".")[-1] in ("_apply_changes", "_apply_mutations", "repair")) and c.args and isinstance(c.args[0], ast.Name):
+                mutates.append((n.id, c.args[0].id, c))
+        if isinstance(n.ast, ast.Assign) and any(isinstance(t, (ast.Attribute, ast.Subscript)) and isinstance(t.value, ast.Name) for t in n.ast.targets):
+            t0 = next(t for t in n.ast.targets if isinstance(t, (ast.Attribute, ast.Subscript)) and isinstance(t.value, ast.Name))
+            mutates.append((n.id, t0.value.id, n.ast))  # type: ignore[union-attr]
+    if not validates:
+        raise AnalysisError("cli.main:write: no Validator(...).validate(<doc>) call found; which text the printed status describes is not decided")
+    for vid, dv, vc in validates:
+        later = [(mid, mc) for mid, dm, mc in mutates if dm == dv and mid != vid and cfg.path_exists(vid, mid, {"x"})]
+        run.instance("R10.11", m.loc(vc), f"write: `{norm(vc)[:60]}` is not followed by a change of `{dv}`", ok=not later)
+        for mid, mc in later[:2]:
+            run.violation("R10.11", m, "write", mc, f"`{norm(mc)[:70]}` changes the document after `{norm(vc)[:50]}` has judged it: with --changes the printed validation_status (and the exit code) describe the file before the delta, not the text that is written - a write that makes the document invalid is reported VALIDATED")
+
+
 def check(run: Run) -> None:
     res = Resolver(run.project)
     ctx = Ctx(run, res)
@@ -127,6 +159,7 @@ def check(run: Run) -> None:
     check_write_reports(run, res, None, "R10.9")
     from .c19 import check_strip_with_word
 
+    _cli_status_after_changes(run)
     check_strip_with_word(run, "R10.10")  # an unknown schema name must stay unknown (UNVALIDATED), not collapse onto a real one
     run.assume("get_builtin_schema / load_schema_by_name are pure lookups (module state is read-only: C06 R06.3), so a repeated identical call agrees with the first")
 
